@@ -12,6 +12,7 @@ import (
 	"sort"
 	"time"
 
+	ubackoff "github.com/aperturerobotics/util/backoff"
 	"github.com/aperturerobotics/util/keyed"
 	cbackoff "github.com/cenkalti/backoff/v4"
 	"verifsim/harness/core"
@@ -577,7 +578,10 @@ func runSet(c *core.Ctx) {
 	if w.delay != 0 {
 		opts = append(opts, keyed.WithReleaseDelay[string, int](time.Duration(w.delay)))
 	}
-	if w.retry {
+	if w.retry && c.S.PlanP(400) {
+		// the same interval through the library's own backoff configuration
+		opts = append(opts, keyed.WithRetry[string, int](&ubackoff.Backoff{BackoffKind: ubackoff.BackoffKind_BackoffKind_CONSTANT, Constant: &ubackoff.Constant{Interval: uint32(retryNs / 1e6)}}))
+	} else if w.retry {
 		opts = append(opts, keyed.WithBackoff[string, int](func(string) cbackoff.BackOff { return &constBackoff{time.Duration(retryNs)} }))
 	}
 	if useRC {
